@@ -5,6 +5,8 @@
 From EP Require Import Base.Bytes Checksum.Spec Checksum.Model Checksum.Proofs.
 From EP Require Import Roundtrip.Common Roundtrip.CommonProofs.
 From EP Require Roundtrip.Tcp Roundtrip.TcpProofs Roundtrip.Ipv4 Roundtrip.Ipv4Proofs.
+From EP Require CtlMsg.Spec Roundtrip.Icmp4 Roundtrip.Icmp4Proofs Roundtrip.Icmp6 Roundtrip.Icmp6Proofs.
+From EP Require Checksum.ProtoTypes Checksum.Proto.
 From EP Require ExtChain.Spec ExtChain.Model ExtChain.Proofs BitFields.Model.
 From EP Require Import Builder.Model Builder.Spec.
 From Coq Require Import ZArith Lia ZifyN ZifyBool.
@@ -143,26 +145,58 @@ Proof.
   destruct (TcpProofs.opt_wf_facts _ WO) as (OL & _). unfold Tcp.header_len. lia.
 Qed.
 
-Lemma icmp_wf_pieces4 k : icmp_wf k = true -> exists ps, icmp4_pieces k = Some ps.
+(* ICMP: header lengths and serialisation, from the C08 models *)
+Lemma icmp4_hl_cases t : Icmp4.icmp4_type_header_len t = 8 \/ Icmp4.icmp4_type_header_len t = 20.
+Proof. destruct t; cbn [Icmp4.icmp4_type_header_len]; auto. Qed.
+Lemma icmp4_hl_bounds t : 8 <= Icmp4.icmp4_type_header_len t /\ Icmp4.icmp4_type_header_len t <= 20.
+Proof. destruct (icmp4_hl_cases t) as [-> | ->]; lia. Qed.
+Lemma icmp6_hl t : Icmp6.icmp6_type_header_len t = 8.
+Proof. destruct t; reflexivity. Qed.
+
+Lemma icmp4_emit_ok e t p : exists b, icmp4_emit e t p = Some b /\ len b = Icmp4.icmp4_type_header_len t.
 Proof.
-  destruct k as [t c b|i s|i s]; cbn; intros W; [|eexists; reflexivity..].
-  bsplit W.
-  match goal with H : len b = 4 |- _ =>
-    destruct b as [|b0 [|b1 [|b2 [|b3 [|b4 r]]]]]; try (vm_compute in H; discriminate);
-    [eexists; reflexivity | rewrite !len_cons in H; lia] end.
+  unfold icmp4_emit.
+  destruct (Icmp4Proofs.icmp4_ser_agree
+              {| Icmp4.icmp4_type := t;
+                 Icmp4.icmp4_checksum := Checksum.Proto.icmp4_calc_checksum e (c09_icmp4 t) p |} [])
+    as (b & E & _ & L).
+  exists b. split; [exact E|exact L].
 Qed.
-Lemma icmp_wf_pieces6 k : icmp_wf k = true -> exists ps, icmp6_pieces k = Some ps.
+Lemma icmp6_to_bytes_ok t ck :
+  exists b, Icmp6.icmp6_to_bytes {| Icmp6.icmp6_type := t; Icmp6.icmp6_checksum := ck |} = Some b /\ len b = 8.
 Proof.
-  destruct k as [t c b|i s|i s]; cbn; intros W; [|eexists; reflexivity..].
-  bsplit W.
-  match goal with H : len b = 4 |- _ =>
-    destruct b as [|b0 [|b1 [|b2 [|b3 [|b4 r]]]]]; try (vm_compute in H; discriminate);
-    [eexists; reflexivity | rewrite !len_cons in H; lia] end.
+  destruct (Icmp6Proofs.icmp6_ser_agree {| Icmp6.icmp6_type := t; Icmp6.icmp6_checksum := ck |} [])
+    as (b & E & _ & L).
+  exists b. split; [exact E|]. rewrite L. unfold Icmp6.icmp6_header_len. cbn [Icmp6.icmp6_type]. apply icmp6_hl.
 Qed.
-Lemma icmp_to_bytes_len rq rp k ck : icmp_wf k = true -> len (icmp_to_bytes rq rp k ck) = 8.
+Lemma icmp6_ck_ok e t s d p : len p <= 4294967287 ->
+  exists ck, Checksum.Proto.icmp6_calc_checksum e (c09_icmp6 t) s d p = ProtoTypes.COk ck /\ ck <= 65535.
 Proof.
-  destruct k as [t c b|i s|i s]; cbn [icmp_wf icmp_to_bytes]; intros W; [|reflexivity..].
-  bsplit W. rewrite !len_app. match goal with H : len b = 4 |- _ => rewrite H end. reflexivity.
+  intros L. unfold Checksum.Proto.icmp6_calc_checksum, Checksum.Proto.icmp6_header_len.
+  change (Checksum.Proto.U32MAX - 8) with 4294967287.
+  replace (4294967287 <? len p) with false by (symmetry; apply N.ltb_ge; exact L).
+  eexists. split; [reflexivity|]. apply checksum64_le.
+Qed.
+
+(* bring the header-length facts of every ICMP type variable in the context into reach of lia *)
+Ltac icmp_hl :=
+  repeat match goal with
+  | k : CtlMsg.Spec.Icmpv4Type |- _ =>
+      lazymatch goal with
+      | _ : 8 <= Icmp4.icmp4_type_header_len k /\ _ |- _ => fail
+      | _ => pose proof (icmp4_hl_bounds k)
+      end
+  end;
+  repeat match goal with
+  | k : CtlMsg.Spec.Icmpv6Type |- _ => rewrite (icmp6_hl k) in *
+  end.
+
+Lemma tr_header_len_le t : tr_wf t = true -> tr_header_len t <= 60.
+Proof.
+  destruct t as [n|sp dp|h|k|k]; cbn [tr_header_len tr_wf]; intros W; try lia.
+  - apply tcp_header_len_le. exact W.
+  - icmp_hl. lia.
+  - icmp_hl. lia.
 Qed.
 
 Definition is_icmpv6 (t : transport_cfg) : bool := match t with TrIcmpv6 _ => true | _ => false end.
@@ -182,8 +216,7 @@ Proof.
     rewrite tcp_finish_ok by (try assumption; apply checksum64_le).
     eexists; split; [reflexivity|].
     rewrite len_app, TcpProofs.len_fixed, (TcpProofs.len_take_opts h W). reflexivity.
-  - destruct (icmp_wf_pieces4 k W) as (ps & E). rewrite E.
-    eexists; split; [reflexivity|]. apply icmp_to_bytes_len. exact W.
+  - destruct (icmp4_emit_ok e k p) as (b & E & L). rewrite E. eexists; split; [reflexivity|exact L].
 Qed.
 
 Lemma p16_of_len l : len l = 16 -> p16_of l = Some (P16 l).
@@ -205,12 +238,11 @@ Proof.
     rewrite tcp_finish_ok by (try assumption; apply checksum64_le).
     eexists; split; [reflexivity|].
     rewrite len_app, TcpProofs.len_fixed, (TcpProofs.len_take_opts h W). reflexivity.
-  - destruct (icmp_wf_pieces4 k W) as (ps & E). rewrite E.
-    eexists; split; [reflexivity|]. apply icmp_to_bytes_len. exact W.
-  - replace (4294967287 <? len p) with false by (symmetry; apply N.ltb_ge; lia).
-    rewrite !p16_of_len by assumption.
-    destruct (icmp_wf_pieces6 k W) as (ps & E). rewrite E.
-    eexists; split; [reflexivity|]. apply icmp_to_bytes_len. exact W.
+  - destruct (icmp4_emit_ok e k p) as (b & E & L). rewrite E. eexists; split; [reflexivity|exact L].
+  - rewrite (icmp6_hl k) in *. rewrite !p16_of_len by assumption.
+    destruct (icmp6_ck_ok e k s d p) as (ck & EC & _); [lia|]. rewrite EC.
+    destruct (icmp6_to_bytes_ok k ck) as (b & E & L).
+    rewrite E. eexists; split; [reflexivity|exact L].
 Qed.
 
 (* ------------------------------------------------------------------ net part *)
